@@ -490,6 +490,51 @@ func (h *gmeHarness) liveOrder() (line, obs string) {
 	return "gme liveorder final=ok", "cur=" + strings.Join(curs, ",")
 }
 
+// closeTimers (`gme closetimers`): a GCPMultiEndpoint whose MultiEndpoint has a recovery timeout (its endpoints start
+// "recovering", each with a timer) is closed at once. The monitors stop. Then the MultiEndpoint's lock is held for longer
+// than the recovery timeout, so that whatever the closed object still starts stays visible, and the goroutines started by
+// its timers are counted.   => after_close=<n>
+func (h *gmeHarness) closeTimers() (line, obs string) {
+	line = "gme closetimers"
+	defer func() {
+		if r := recover(); r != nil {
+			obs = "PANIC"
+		}
+	}()
+	if h.gme != nil {
+		h.gme.Close()
+		h.gme = nil
+	}
+	h.conns, h.dials, h.fail = map[string][]*grpc.ClientConn{}, map[string]int{}, map[string]bool{}
+	const recovery = 150 * time.Millisecond
+	g, err := NewGCPMultiEndpoint(&GCPMultiEndpointOptions{GRPCgcpConfig: h.apiCfg, Default: "main", DialFunc: h.dial,
+		MultiEndpoints: map[string]*multiendpoint.MultiEndpointOptions{"main": {Endpoints: []string{"e1", "e2"}, RecoveryTimeout: recovery}}})
+	if err != nil {
+		return line, "err"
+	}
+	me := g.mes["main"]
+	g.Close()
+	h.digestAfterClose()
+	for i := 0; i < 400 && gmeMonitors() > 0; i++ {
+		time.Sleep(5 * time.Millisecond)
+	}
+	if gmeMonitors() > 0 {
+		return line, "monitors-still-running"
+	}
+	l, ok := me.(sync.Locker)
+	if !ok {
+		return line, "after_close=?"
+	}
+	l.Lock()
+	time.Sleep(recovery + 250*time.Millisecond)
+	var buf bytes.Buffer
+	pprof.Lookup("goroutine").WriteTo(&buf, 2)
+	l.Unlock()
+	n := strings.Count(buf.String(), "multiendpoint.(*multiEndpoint).")
+	time.Sleep(20 * time.Millisecond) // let them finish
+	return line, fmt.Sprintf("after_close=%d", n)
+}
+
 func (h *gmeHarness) dial(ctx context.Context, target string, opts ...grpc.DialOption) (*grpc.ClientConn, error) {
 	if h.fail[target] {
 		return nil, errors.New("verif: dial failure")
@@ -637,6 +682,9 @@ func (h *gmeHarness) exec(line string) (out string) {
 		return "@" + l + " => " + o
 	case "liveorder":
 		l, o := h.liveOrder()
+		return "@" + l + " => " + o
+	case "closetimers":
+		l, o := h.closeTimers()
 		return "@" + l + " => " + o
 	case "new", "upd":
 		h.fail = map[string]bool{}
@@ -896,6 +944,9 @@ func TestVerifGME(t *testing.T) {
 		}
 		if ep%80 == 61 { // … and MultiEndpoints with a switching delay added over READY pools
 			emit("gme liveorder")
+		}
+		if ep%200 == 101 { // Close with recovery timers pending (K9)
+			emit("gme closetimers")
 		}
 		d, o, fl := genOpts()
 		obs := emit(fmt.Sprintf("gme new default=%s opts=%s fail=%s", d, o, fl))
